@@ -25,9 +25,122 @@ pub mod env {
     @*/
     /*@item sbor/src/traversal/untyped/traverser.rs :: struct VecTraverserConfig
     @*/
-    /// sbor/src/traversal/untyped/traverser.rs :: struct AncestorState<T> -- one entry per entered
-    /// (non-empty) container; only the LENGTH of the ancestor path matters for the depth guard
-    pub struct AncestorState { pub container_start_offset: usize, pub current_child_index: usize }
+    /// sbor/src/traversal/untyped/traverser.rs :: trait CustomTraversal -- R12: only the associated
+    /// value-kind type is needed (the real trait also has CustomTerminalValueRef and read_custom_value_body)
+    pub trait CustomTraversal { type CustomValueKind: CustomValueKind; }
+    // (the container header types are extracted in `unit`, next to ContainerHeader::get_child_count)
+    pub use super::unit::{TupleHeader, EnumVariantHeader, ArrayHeader, MapHeader, ContainerHeader};
+    /*@item sbor/src/traversal/untyped/traverser.rs :: struct AncestorState
+    @derive Nothing
+    @*/
+    /*@item sbor/src/traversal/untyped/traverser.rs :: enum NextAction
+    @derive Nothing
+    @*/
+    impl<T: CustomTraversal> AncestorState<T> {
+        /// NOT under contract (irrelevant to depth): which value kind the current child is known to have
+        #[verifier::external_body]
+        pub fn get_implicit_value_kind_of_current_child(&self) -> Option<ValueKind<T::CustomValueKind>> { unimplemented!() }
+    }
+
+    /// Ghost description of where an event returned by `step` came from (which ActionHandler
+    /// method completed it).  `Value` / `ByteArray` / `End` stand for "whatever reading the next
+    /// value / byte batch / the end check produced" -- possibly a decode error of its own, but not
+    /// one raised by the traverser's depth guard.
+    pub enum Origin<T: CustomTraversal> {
+        Error(DecodeError),
+        ContainerEnd(ContainerHeader<T>),
+        Value(Option<ValueKind<T::CustomValueKind>>),
+        ByteArray(usize),
+        End,
+    }
+    /// sbor/src/traversal/untyped/events.rs :: struct LocatedTraversalEvent -- opaque here
+    #[verifier::external_body]
+    #[verifier::reject_recursive_types(T)]
+    pub struct LocatedTraversalEvent<'t, 'de, T: CustomTraversal> { p: PhantomData<(&'t (), &'de (), T)> }
+    impl<'t, 'de, T: CustomTraversal> LocatedTraversalEvent<'t, 'de, T> {
+        pub uninterp spec fn origin(&self) -> Origin<T>;
+        /// location.ancestor_path
+        pub uninterp spec fn path(&self) -> Seq<AncestorState<T>>;
+        /// location.start_offset
+        pub uninterp spec fn start_offset(&self) -> usize;
+    }
+
+    /// The two Decoder methods `step` calls on the decoder directly. NOT under contract in this unit
+    /// (read_byte is under contract in c20_size_codec); ASSUMED: they do not touch the depth counters,
+    /// and the prefix check fails only with BufferUnderflow / UnexpectedPayloadPrefix.
+    pub trait DecoderOps {
+        fn get_offset(&self) -> usize;
+        fn read_and_check_payload_prefix(&mut self, expected_prefix: u8) -> Result<(), DecodeError>;
+    }
+    impl<'de, X: CustomValueKind> DecoderOps for super::unit::VecDecoder<'de, X> {
+        #[verifier::external_body]
+        fn get_offset(&self) -> (r: usize) ensures r == self.offset { unimplemented!() }
+        #[verifier::external_body]
+        fn read_and_check_payload_prefix(&mut self, expected_prefix: u8) -> (r: Result<(), DecodeError>)
+            ensures
+                final(self).stack_depth == old(self).stack_depth, final(self).max_depth == old(self).max_depth,
+                r matches Err(e) ==> e is BufferUnderflow || e is UnexpectedPayloadPrefix,
+        { unimplemented!() }
+    }
+
+    /// sbor/src/traversal/untyped/traverser.rs :: struct ActionHandler -- the event constructors.
+    /// NOT under contract (they build the lifetime-heavy TraversalEvent values); ASSUMED behaviour,
+    /// read off their bodies: every one reports `ancestor_path` as the event location, none touches the
+    /// decoder's depth counters, complete_with_error(e) yields DecodeError(e) + NextAction::Errored,
+    /// complete_container_end(h) yields ContainerEnd(h) + ReadNextChildOrExitContainer.
+    pub struct ActionHandler<'t, 'd, 'de, T: CustomTraversal> {
+        pub ancestor_path: &'t [AncestorState<T>],
+        pub decoder: &'d mut super::unit::VecDecoder<'de, T::CustomValueKind>,
+        pub start_offset: usize,
+    }
+    impl<'t, 'd, 'de, T: CustomTraversal> ActionHandler<'t, 'd, 'de, T> {
+        #[verifier::external_body]
+        pub fn new_from_current_offset(
+            ancestor_path: &'t [AncestorState<T>],
+            decoder: &'d mut super::unit::VecDecoder<'de, T::CustomValueKind>,
+        ) -> (r: Self)
+            ensures r.ancestor_path@ == ancestor_path@, r.start_offset == old(decoder).offset,
+                    *r.decoder == *old(decoder), *final(r.decoder) == *final(decoder),
+        { unimplemented!() }
+        #[verifier::external_body]
+        pub fn new_with_fixed_offset(
+            ancestor_path: &'t [AncestorState<T>],
+            decoder: &'d mut super::unit::VecDecoder<'de, T::CustomValueKind>,
+            start_offset: usize,
+        ) -> (r: Self)
+            ensures r.ancestor_path@ == ancestor_path@, r.start_offset == start_offset,
+                    *r.decoder == *old(decoder), *final(r.decoder) == *final(decoder),
+        { unimplemented!() }
+        #[verifier::external_body]
+        pub fn read_value(self, implicit_value_kind: Option<ValueKind<T::CustomValueKind>>)
+            -> (r: (LocatedTraversalEvent<'t, 'de, T>, NextAction<T>))
+            ensures r.0.origin() == Origin::<T>::Value(implicit_value_kind), r.0.path() == self.ancestor_path@,
+                    final(self.decoder).stack_depth == old(self.decoder).stack_depth, final(self.decoder).max_depth == old(self.decoder).max_depth,
+        { unimplemented!() }
+        #[verifier::external_body]
+        pub fn read_byte_array(self, array_length: usize) -> (r: (LocatedTraversalEvent<'t, 'de, T>, NextAction<T>))
+            ensures r.0.origin() == Origin::<T>::ByteArray(array_length), r.0.path() == self.ancestor_path@,
+                    final(self.decoder).stack_depth == old(self.decoder).stack_depth, final(self.decoder).max_depth == old(self.decoder).max_depth,
+        { unimplemented!() }
+        #[verifier::external_body]
+        pub fn end(self, config: &VecTraverserConfig) -> (r: (LocatedTraversalEvent<'t, 'de, T>, NextAction<T>))
+            ensures r.0.origin() == Origin::<T>::End, r.0.path() == self.ancestor_path@,
+                    final(self.decoder).stack_depth == old(self.decoder).stack_depth, final(self.decoder).max_depth == old(self.decoder).max_depth,
+        { unimplemented!() }
+        #[verifier::external_body]
+        pub fn complete_container_end(self, container_header: ContainerHeader<T>)
+            -> (r: (LocatedTraversalEvent<'t, 'de, T>, NextAction<T>))
+            ensures r.0.origin() == Origin::<T>::ContainerEnd(container_header), r.0.path() == self.ancestor_path@,
+                    r.0.start_offset() == self.start_offset, r.1 is ReadNextChildOrExitContainer,
+                    final(self.decoder).stack_depth == old(self.decoder).stack_depth, final(self.decoder).max_depth == old(self.decoder).max_depth,
+        { unimplemented!() }
+        #[verifier::external_body]
+        pub fn complete_with_error(self, error: DecodeError) -> (r: (LocatedTraversalEvent<'t, 'de, T>, NextAction<T>))
+            ensures r.0.origin() == Origin::<T>::Error(error), r.0.path() == self.ancestor_path@,
+                    r.0.start_offset() == self.start_offset, r.1 is Errored,
+                    final(self.decoder).stack_depth == old(self.decoder).stack_depth, final(self.decoder).max_depth == old(self.decoder).max_depth,
+        { unimplemented!() }
+    }
 }
 
 pub mod unit {
@@ -59,6 +172,8 @@ pub mod unit {
                 // depth returns to its entry value
                 ret is Ok ==> final(self).depths() == old(self).depths(),
                 final(self).depths().1 == old(self).depths().1;
+        fn get_depth_limit(&self) -> (ret: usize) ensures ret == self.depths().1;
+        fn get_stack_depth(&self) -> (ret: usize) ensures ret == self.depths().0;
     }
     /// sbor/src/decode.rs :: trait Decode -- ASSUMED (induction hypothesis for the children): a body
     /// decoder that succeeds leaves the depth where it found it, and nobody changes max_depth.
@@ -124,6 +239,10 @@ pub mod unit {
     impl<'de, X: CustomValueKind> Decoder<X> for VecDecoder<'de, X> {
         /*@fn sbor/src/decoder.rs :: impl<'de, X: CustomValueKind> Decoder<X> for VecDecoder<'de, X> :: fn decode_deeper_body_with_value_kind
         @*/
+        /*@fn sbor/src/decoder.rs :: impl<'de, X: CustomValueKind> Decoder<X> for VecDecoder<'de, X> :: fn get_depth_limit
+        @*/
+        /*@fn sbor/src/decoder.rs :: impl<'de, X: CustomValueKind> Decoder<X> for VecDecoder<'de, X> :: fn get_stack_depth
+        @*/
     }
 
     // ---- encoder ---------------------------------------------------------------------------------
@@ -170,24 +289,130 @@ pub mod unit {
     // `step` pushes the (non-empty) container on `ancestor_path` and then evaluates this guard; the
     // first child would be read at depth ancestor_path.len() + 1.  Both the condition and the error
     // value are sliced from the real function on every run.
-    pub fn traverser_entry_guard(ancestor_path: &Vec<AncestorState>, config: &VecTraverserConfig) -> (ret: Option<DecodeError>)
+    pub fn traverser_entry_guard<T: CustomTraversal>(ancestor_path: &Vec<AncestorState<T>>, config: &VecTraverserConfig) -> (ret: Option<DecodeError>)
         ensures
             ret is Some <==> refuses_child(ancestor_path.len() as int, config.max_depth as int),
             ret matches Some(e) ==> e == DecodeError::MaxDepthExceeded(config.max_depth),
     {
-        if /*@expr sbor/src/traversal/untyped/traverser.rs :: impl<'de, T: CustomTraversal> VecTraverser<'de, T> :: fn step :: <<DecodeError::MaxDepthExceeded(config.max_depth)>> #1 @*/ {
+        if /*@expr sbor/src/traversal/untyped/traverser.rs :: impl<'de, T: CustomTraversal> VecTraverser<'de, T> :: fn step :: <<DecodeError::MaxDepthExceeded>> #1 @*/ {
             Some(/*@expr-after sbor/src/traversal/untyped/traverser.rs :: impl<'de, T: CustomTraversal> VecTraverser<'de, T> :: fn step :: <<.complete_with_error(>> #2 @*/)
         } else {
             None
         }
     }
 
+    // ---- traverser: VecTraverser::step, the whole state-machine step -------------------------------
+    /// number of children announced by a container header (oracle: map entries count twice)
+    pub open spec fn child_count<T: CustomTraversal>(h: ContainerHeader<T>) -> int {
+        match h {
+            ContainerHeader::Tuple(x) => x.length as int,
+            ContainerHeader::EnumVariant(x) => x.length as int,
+            ContainerHeader::Array(x) => x.length as int,
+            ContainerHeader::Map(x) => 2 * x.length,
+        }
+    }
+    /// lengths come from read_size, hence are <= 0x0FFF_FFFF (C20): 2 * length cannot overflow
+    pub open spec fn header_ok<T: CustomTraversal>(h: ContainerHeader<T>) -> bool { child_count(h) <= usize::MAX }
+    /// invariant of the ancestor stack: every entered container is non-empty and its cursor is inside it
+    pub open spec fn path_ok<T: CustomTraversal>(p: Seq<AncestorState<T>>) -> bool {
+        forall|i: int| 0 <= i < p.len() ==> header_ok(#[trigger] p[i].container_header) && p[i].current_child_index < child_count(p[i].container_header)
+    }
+    pub open spec fn is_byte_array<T: CustomTraversal>(h: ContainerHeader<T>) -> bool {
+        h matches ContainerHeader::Array(a) && a.element_value_kind is U8
+    }
+
+    /*@item sbor/src/traversal/untyped/events.rs :: struct TupleHeader
+    @derive Nothing
+    @*/
+    /*@item sbor/src/traversal/untyped/events.rs :: struct EnumVariantHeader
+    @derive Nothing
+    @*/
+    /*@item sbor/src/traversal/untyped/events.rs :: struct ArrayHeader
+    @derive Nothing
+    @*/
+    /*@item sbor/src/traversal/untyped/events.rs :: struct MapHeader
+    @derive Nothing
+    @*/
+    /*@item sbor/src/traversal/untyped/events.rs :: enum ContainerHeader
+    @derive Nothing
+    @*/
+
+    impl<T: CustomTraversal> ContainerHeader<T> {
+        /*@fn sbor/src/traversal/untyped/events.rs :: impl<T: CustomTraversal> ContainerHeader<T> :: fn get_child_count
+        @sig
+            requires header_ok(*self)
+            ensures ret == child_count(*self)
+        @*/
+    }
+
+    /*@item sbor/src/traversal/untyped/traverser.rs :: struct VecTraverser
+    @*/
+
+    impl<'de, T: CustomTraversal> VecTraverser<'de, T> {
+        /*@fn sbor/src/traversal/untyped/traverser.rs :: impl<'de, T: CustomTraversal> VecTraverser<'de, T> :: fn step
+        @sig
+            requires
+                // documented caller obligation: no step after an Error / End event
+                !(action is Errored), !(action is Ended), !(action is InProgressPlaceholder),
+                path_ok(old(ancestor_path)@),
+                action matches NextAction::ReadContainerContentStart { container_header, .. } ==> header_ok(container_header),
+            ensures
+                path_ok(final(ancestor_path)@),
+                // the event is always located at the final ancestor stack
+                ret.0.path() == final(ancestor_path)@,
+                // root actions: the stack is untouched and NO depth test is made, whatever max_depth is
+                (action is ReadPrefix || action is ReadRootValue || action is ReadRootValueBody) ==>
+                    final(ancestor_path)@ == old(ancestor_path)@
+                    && (ret.0.origin() is Value || (ret.0.origin() matches Origin::Error(e) && !(e is MaxDepthExceeded))),
+                // container entry
+                action matches NextAction::ReadContainerContentStart { container_header, container_start_offset } ==> (
+                    if child_count(container_header) == 0 {
+                        // empty containers are closed at once and never pushed: they cost no depth
+                        final(ancestor_path)@ == old(ancestor_path)@
+                        && ret.0.origin() == Origin::<T>::ContainerEnd(container_header)
+                    } else {
+                        // the container is pushed FIRST (also when the child is then refused) ...
+                        final(ancestor_path)@.len() == old(ancestor_path)@.len() + 1
+                        && final(ancestor_path)@.drop_last() == old(ancestor_path)@
+                        && final(ancestor_path)@.last().container_header == container_header
+                        && final(ancestor_path)@.last().container_start_offset == container_start_offset
+                        // ... and its first child, at depth len + 1, is refused exactly at the decoder's boundary
+                        && (ret.0.origin() is Error <==> refuses_child(final(ancestor_path)@.len() as int, config.max_depth as int))
+                        && (ret.0.origin() matches Origin::Error(e) ==> e == DecodeError::MaxDepthExceeded(config.max_depth) && ret.1 is Errored)
+                        // accepted: byte arrays are read as one batch (cursor on the last element), anything else child by child
+                        && (!(ret.0.origin() is Error) ==> (
+                            if is_byte_array(container_header) {
+                                ret.0.origin() == Origin::<T>::ByteArray(child_count(container_header) as usize)
+                                && final(ancestor_path)@.last().current_child_index == child_count(container_header) - 1
+                            } else {
+                                ret.0.origin() is Value && final(ancestor_path)@.last().current_child_index == 0
+                            }))
+                    }),
+                // next sibling or container exit: the stack shrinks by exactly the completed container
+                action is ReadNextChildOrExitContainer ==> (
+                    if old(ancestor_path)@.len() == 0 {
+                        final(ancestor_path)@ == old(ancestor_path)@ && ret.0.origin() is End
+                    } else if old(ancestor_path)@.last().current_child_index + 1 >= child_count(old(ancestor_path)@.last().container_header) {
+                        final(ancestor_path)@ == old(ancestor_path)@.drop_last()
+                        && ret.0.origin() == Origin::<T>::ContainerEnd(old(ancestor_path)@.last().container_header)
+                    } else {
+                        final(ancestor_path)@.len() == old(ancestor_path)@.len()
+                        && final(ancestor_path)@.drop_last() == old(ancestor_path)@.drop_last()
+                        && final(ancestor_path)@.last().container_header == old(ancestor_path)@.last().container_header
+                        && final(ancestor_path)@.last().current_child_index == old(ancestor_path)@.last().current_child_index + 1
+                        && ret.0.origin() is Value
+                    }),
+                // the traverser never uses the decoder's own depth counters
+                final(decoder).stack_depth == old(decoder).stack_depth, final(decoder).max_depth == old(decoder).max_depth
+        @*/
+    }
+
     // ---- C21 agreement: one boundary for all three -------------------------------------------------
     /// A traverser that has entered `ancestor_path.len()` containers and a decoder at the same
     /// nesting depth with the same limit take the same decision about one more level, and report
     /// the same error value.
-    pub fn traverser_agrees_with_decoder<'de, X: CustomValueKind>(
-        decoder: &mut VecDecoder<'de, X>, ancestor_path: &Vec<AncestorState>, config: &VecTraverserConfig,
+    pub fn traverser_agrees_with_decoder<'de, T: CustomTraversal>(
+        decoder: &mut VecDecoder<'de, T::CustomValueKind>, ancestor_path: &Vec<AncestorState<T>>, config: &VecTraverserConfig,
     ) -> (r: (Option<DecodeError>, Result<(), DecodeError>))
         requires
             old(decoder).stack_depth == ancestor_path.len(), old(decoder).max_depth == config.max_depth,
@@ -229,6 +454,9 @@ pub mod unit {
         requires max_depth >= 0
         ensures refuses_child(0, max_depth) <==> max_depth == 0
     {}
+
+    // (a KNOWN-FINDING obligation about RawValue's sub-traverser depth budget is kept OUT of this unit:
+    //  see known_finding.frag.rs and finding_replay/ in this directory)
 }
 } // verus!
 fn main() {}
